@@ -28,7 +28,7 @@ IsTy(ks, k, ty) == Has(ks, k) /\ ks[k].ty = ty
 Res(reply, ks) == [reply |-> reply, ks |-> ks, cmp |-> "exact"]
 ResC(reply, ks, cmp) == [reply |-> reply, ks |-> ks, cmp |-> cmp]
 NotModelled(ks) == [reply |-> Null, ks |-> ks, cmp |-> "any"]
-ErrReply == [reply |-> Err(<<>>), ks |-> 0, cmp |-> "error"]      \* any error reply, keyspace unchanged
+ErrReply == [reply |-> Err(<<>>), ks |-> EmptyKS, cmp |-> "error"]   \* any error reply (the keyspace field is not used)
 IsErrRes(r) == r.cmp = "error"
 
 \* ---------------------------------------------------------------- decimal numbers
